@@ -51,6 +51,8 @@ fixed("FX-C09-04", "C09", "57be1d1", "an escaped object key straddling a read bo
 fixed("FX-C09-07", "C09", "9207e74", "a number that is the value of an unknown struct member with whitespace before it and a refill boundary inside it made Decoder fail with 'expected comma after object element' (was KF-C09-07): {\"p\":\"xx..x\",\"unknown\":  256} at 511 bytes")
 fixed("FX-C09-02", "C09", "57be1d1", "refill inside an escaped struct key lost the scanner state (was KF-C09-02; completed by b177bea and 17431c1)")
 fixed("FX-C02-04", "C02", "3851b65", "null into a non-nil []byte left the old bytes: Unmarshal({\"q\":\"\",\"q\":null}) kept q = []byte{} (encoding/json: nil), also for pre-populated destinations and in stream mode")
+fixed("FX-C07-03", "C07", "3851b65", "null into a pre-populated []byte field kept the old bytes (was KF-C07-01 / KF-C02-05)")
+fixed("FX-C04-01", "C04", "57be1d1", "own output > 512 bytes with an escaped struct key decoded with Unmarshal but not with Decoder (was KF-C04-STREAM / KF-C02-07 / KF-C02-07b; completed by b177bea, 17431c1, 9207e74)")
 fixed("FX-C15-01", "C15", "57be1d1", "Decoder fed 5-byte chunks failed on fully \\u-escaped keys")
 
 fixed("FX-C06-04", "C06", "0243e9f", "Compact/Indent of a 100000-deep tower: fatal out of memory / stack overflow (no nesting limit)")
@@ -286,9 +288,6 @@ RT = r"(encode-error|decode-error|not-equal:.+|panic:.+|fatal:.+|checkptr:.+|ill
 feature_entries("C04", "roundtrip", "KF-C04", RT, ["ptr2\\+", "array1-ptr-shaped-elem", "struct-ptr-shaped", "mapkey-marshaler", "embedded-conflicts", "embedded-structof",
                 "marshalerP-by-value", "nilable-marshalerV", "omitempty-marshaler", "ptr-to-marshaler", "string-opt-nonscalar", "string-opt-float-or-string", "name-collisions", "tags-zoo"])
 
-known("KF-C04-STREAM", "C04", "roundtrip", r"Encoder→Decoder", r"stream-differs-from-buffer", r"doc>500B with .*escape across a refill boundary.*",
-      'a >512-byte document whose struct key is spelled "\\u003ck\\u003e" decodes with Unmarshal but fails (or mis-assigns) with Decoder when the escape straddles the 512-byte refill', "internal/decoder/struct.go decodeKeyByBitmap*Stream / decodeKeyCharByUnicodeRuneStream: state lost when the buffer is refilled inside an escaped key (see C09)",
-      "other stream-only failures on large documents containing \\u00XX escapes", "belongs to the stream refill logic; C09 keeps the precise chunk-level findings")
 
 # ------------------------------------------------------------------ C08
 SAFE = r"(panic:.+|fatal:.+|checkptr:.+|asan:.+|excessive-allocation|slot-clobber:.+)"
@@ -334,21 +333,12 @@ known("KF-C02-04", "C02", D, r"Decoder.*", r"stream-differs-from-buffer", r"ok-v
       'NewDecoder("-327680e-1").Decode(&int) = nil (stores the digit prefix); Unmarshal reports the error', "see KF-C16-03 (stream position)", "see KF-C16-03", "see KF-C16-03")
 known("KF-C02-04b", "C02", D, r"Decoder.*", r"ok-vs-err", r"ref:type:number->u?int(8|16|32|64|ptr)? @ doc:[a-z-]+(\+prepop)? @ .*",
       'NewDecoder("1.0").Decode(&uint8) = nil with UseNumber set as well', "see KF-C16-03 (stream position)", "see KF-C16-03", "see KF-C16-03")
-known("KF-C02-07b", "C02", D, r"Decoder.*", r"err-vs-ok", r"go:syntax:(json: invalid character u as escaped char|expected colon after object key) @ doc:[a-z-]+(\+prepop)? @ .*",
-      'same stream refill defect as KF-C02-07, seen under UseNumber where no buffer-mode equivalent exists to confirm it', "see KF-C04-STREAM / C09", "other stream syntax errors with exactly these two messages", "see C09")
-known("KF-C02-05", "C02", D, None, r"value:nil->non-nil", r"bytes.* @ doc:(.*\+prepop|dup-key)",
-      'Unmarshal("null", &b) with b = []byte("old") leaves b unchanged (encoding/json sets it to nil)', "internal/decoder/bytes.go: returns on null without clearing the destination",
-      "other nil-vs-non-nil differences on pre-populated []byte", "small; left as finding (behavioural)")
 known("KF-C02-06", "C02", D, None, r"field-selection:case-insensitive-match", r"(core|feature:.*)",
       '{"C":-1} does not reach the field tagged `json:"c,omitempty"` of an embedded struct; {"B":1} into EmbDeep is not reported as a type error (encoding/json matches case-insensitively)', "internal/decoder/struct.go: case-insensitive lookup is missing for fields promoted from embedded structs (see C15)",
       "any disagreement that disappears when keys are spelled exactly like their fields", "see C15")
-known("KF-C02-07", "C02", D, r"Decoder.*", r"stream-differs-from-buffer", r"(err-vs-ok:.*|value|ok-vs-err:.*) @ doc>500B.* @ .*",
-      'a >512-byte document with \\u00XX escapes decodes with Unmarshal but fails or differs with Decoder', "see KF-C04-STREAM / C09", "other stream-only disagreements on documents larger than the initial buffer", "see C09")
 
 
 # ------------------------------------------------------------------ C07
-known("KF-C07-01", "C07", "twin", None, r"unaddressed-storage-differs:nil->non-nil", r"bytes.* @ slice\(elem1\):null",
-      'null into a pre-populated []byte field keeps the old bytes (encoding/json sets nil)', "see KF-C02-05", "see KF-C02-05", "see KF-C02-05")
 
 # ------------------------------------------------------------------ C15
 FS = "field-selection"
